@@ -160,7 +160,7 @@ static void t_wc1(wchar_t wc, size_t dmax, int dnull, int which) {
     if (verbose) printf("%s: rc=%d *retvalp=%zd fault=%d libc need=%zd\n", fn, rc, (ssize_t)ret, faulted, (ssize_t)need);
     if (faulted) { n_fault++; report(fn, "access-outside-the-space-available", "fault", cs); return; }
     sprintf(cb, "%s,%s", valid ? "valid" : "invalid-char", dnull ? "query" : !valid ? "-" : need + 1 <= dmax ? "fits" : "need>=dmax");
-    if (dnull) return;
+    if (dnull) { if (which && (rc != 0 || h_n)) report(fn, "state-query-with-null-dest-fails", cb, cs); return; }      /* wctomb_s(&r, NULL, 0, wc): does the encoding have state - never an error, whatever errno held */
     if (!valid) { if (rc == 0) report(fn, "invalid-character-accepted", cb, cs); else if (dest[0] != 0) report(fn, "dest-not-cleared-on-invalid-character", cb, cs); return; }
     if (wc == 0 || need == 0) return;      /* an empty conversion (the terminator; characters glibc's ASCII converter silently drops, U+E0000..E007F) is not judged */
     if (need + 1 <= dmax) {
@@ -283,6 +283,7 @@ int main(int argc, char **argv) {
         }
     }
     if (shard == 0) for (int k = 0; k < 6; k++) for (size_t dmax = 1; dmax <= 6; dmax++) for (int which = 0; which < 2; which++) { t_wc1(WC[k], dmax, 0, which); }
+    if (shard == 0) for (int k = 0; k < 4; k++) for (int which = 0; which < 2; which++) t_wc1(WC[k], 0, 1, which);      /* the query forms */
     /* wchar_t values beyond U+10FFFF: glibc's UTF-8 converter still encodes them, in 4, 5 and 6 bytes (MB_CUR_MAX is 6) */
     if (shard == 0) { static const wchar_t BIGW[] = { 0x110000, 0x1fffff, 0x200000, 0x3ffffff, 0x4000000, 0x7fffffff, (wchar_t)0x80000000, (wchar_t)-1 };
         for (int k = 0; k < 8; k++) for (size_t dmax = 1; dmax <= 9; dmax++) for (int which = 0; which < 2; which++) t_wc1(BIGW[k], dmax, 0, which);
